@@ -22,13 +22,16 @@ const NUMS: [(&str, u64); 7] = [
 #[derive(Clone, Copy, PartialEq)]
 enum Kind {
     Good(char),
+    /// stored, but prints nothing when run (a line holding only a colon)
+    Silent,
     Empty,
     Bad,
 }
 
-const TEXTS: [(&str, Kind); 5] = [
+const TEXTS: [(&str, Kind); 6] = [
     (" PRINT \"a\";", Kind::Good('a')),
     (" PRINT \"b\";", Kind::Good('b')),
+    (" :", Kind::Silent),
     ("", Kind::Empty),
     (" PRINT \"", Kind::Bad),
     (" %", Kind::Bad),
@@ -54,6 +57,9 @@ fn model(hist: &[Ev]) -> BTreeMap<u64, char> {
                         Kind::Good(c) => {
                             m.insert(*key, *c);
                         }
+                        Kind::Silent => {
+                            m.insert(*key, ':');
+                        }
                         Kind::Empty => {
                             m.remove(key);
                         }
@@ -69,7 +75,8 @@ fn model(hist: &[Ev]) -> BTreeMap<u64, char> {
 /// What a fresh interpreter lists after receiving only this line (differential spelling).
 fn fresh_listing(key: u64, c: char) -> String {
     let mut s = Sess::new();
-    let _ = s.apply(&Ev::Line(format!("{} PRINT \"{}\";", key, c)));
+    let text = if c == ':' { format!("{} :", key) } else { format!("{} PRINT \"{}\";", key, c) };
+    let _ = s.apply(&Ev::Line(text));
     s.recs.clear();
     let _ = s.apply(&Ev::Line("LIST".into()));
     s.printed()
@@ -114,7 +121,7 @@ fn check_store(s: &mut Sess, m: &BTreeMap<u64, char>) -> Option<(String, String)
     }
     s.recs.clear();
     let r = s.apply(&Ev::LineToIdle("RUN".into()));
-    let want_out: String = m.values().collect();
+    let want_out: String = m.values().filter(|c| **c != ':').collect();
     if r != CallResult::Ok || s.state() != abasic_core::InterpreterState::Idle {
         return Some((
             format!("RUN ended {:?}", r).chars().take(60).collect(),
@@ -180,7 +187,7 @@ pub fn run(thorough: bool) -> Report {
     if thorough || true {
         // Every sequence of <= L edits over three keys (no dedup): order irrelevance is
         // checked on every permutation rather than inferred from merged states.
-        let keys = [0usize, 3, 5]; // "0", "10", u64::MAX
+        let keys = [0usize, 2, 6]; // "0", a 30-digit spelling of 10, u64::MAX
         let l = if thorough { 6 } else { 4 };
         let evs: Vec<(usize, usize)> = keys.iter().flat_map(|k| (0..TEXTS.len()).map(move |t| (*k, t))).collect();
         let base = evs.len() as u64;
@@ -220,11 +227,26 @@ pub fn run(thorough: bool) -> Report {
                         }
                     }
                     let m = model(&hist);
-                    check_store(&mut s, &m).map(|(sig, detail)| Violation {
-                        signature: sig,
-                        detail,
-                        case: case_history(&hist, false, false),
-                    })
+                    if let Some((sig, detail)) = check_store(&mut s, &m) {
+                        return Some(Violation { signature: sig, detail, case: case_history(&hist, false, false) });
+                    }
+                    // The same entries arriving as a source file (the CLI's and the language
+                    // server's way in) must give the same map. A bare number in a file does not
+                    // delete, so only sequences without deletions are compared.
+                    if seq.iter().all(|e| TEXTS[evs[*e].1].1 != Kind::Empty) {
+                        let text: String = hist.iter().map(|e| match e { Ev::Line(l) => l.clone(), _ => String::new() }).collect::<Vec<_>>().join("\n");
+                        let t2 = text.clone();
+                        match guarded(move || abasic_core::SourceFileAnalyzer::analyze(t2).into_interpreter()) {
+                            Err(p) => return Some(Violation { signature: format!("panic while loading a file {}", short_panic(&p)), detail: p, case: serde_json::json!({"kind":"file","text":text}) }),
+                            Ok(it) => {
+                                let mut f = Sess::from_interpreter(it);
+                                if let Some((sig, detail)) = check_store(&mut f, &m) {
+                                    return Some(Violation { signature: format!("loaded from a file: {}", sig), detail, case: serde_json::json!({"kind":"file","text":text}) });
+                                }
+                            }
+                        }
+                    }
+                    None
                 })
                 .collect();
             for x in v {
